@@ -121,7 +121,14 @@ def isABD (l : Str) : Bool := l == ['A'] || l == ['B'] || l == ['D']
 
 def resolveOperand (o : Operand) (row : InstrRow) (t : SymTab) : R Operand :=
   match o.kind with
-  | .pseudo | .special => .ok o
+  | .special => .ok o
+  | .pseudo =>
+    -- data directives and ORG take symbols, expressions and labels
+    if row.mnemonic == "FCB" || row.mnemonic == "FDB" || row.mnemonic == "RMB" || row.mnemonic == "ORG" then
+      match o.value with
+      | .pyNone => .error .other
+      | v => if v.isSymbol || v.isExpression then (v.resolve t).map (fun v' => { o with value := v' }) else .ok o
+    else .ok o
   | .indexed =>
     match o.left with
     | .text l =>
@@ -141,11 +148,16 @@ def resolveOperand (o : Operand) (row : InstrRow) (t : SymTab) : R Operand :=
     | .ok v =>
       if o.kind != .unknown then .ok { o with value := v }
       else
+        if o.value.isExplicitExtended then .ok { o with kind := .extended, value := v }      -- an explicit > wins (fix A6)
+        else
         match v with
         | .pyNone => .error .other                                -- None.is_numeric()
         | .numeric i _ _ _ =>
           if v.isDirect || o.value.isExplicitDirect then
             (numericOfInt i none .direct).map (fun nv => { o with kind := .direct, value := nv })
+          else .ok { o with kind := .extended, value := v }
+        | .address _ _ =>
+          if o.value.isExplicitDirect then .ok { o with kind := .direct, value := v }         -- <label (fix A11)
           else .ok { o with kind := .extended, value := v }
         | _ => .ok { o with kind := .extended, value := v }
 
@@ -230,11 +242,11 @@ def translateOffset (ind : Bool) (row : InstrRow) (left : Value) (right : Str) (
         else if is8Bit i neg then
           let pb ← numV (raw0 ||| (base + 0x08))
           let a ← numV (0x100 - i)
-          return { opCode := op, postByte := pb, additional := a, size := size, maxSize := size, needsRes := needs }
+          return { opCode := op, postByte := pb, additional := a, size := size + 1, maxSize := size + 1, needsRes := needs }
         else
           let pb ← numV (raw0 ||| (base + 0x09))
           let a ← numericOfInt ((0x10000 : Int) - i) none .none
-          return { opCode := op, postByte := pb, additional := a, size := size, maxSize := size, needsRes := needs }
+          return { opCode := op, postByte := pb, additional := a, size := size + 2, maxSize := size + 2, needsRes := needs }
       else if !ind && is4Bit i neg then
         let pb ← numV (raw0 ||| i)
         return { opCode := op, postByte := pb, additional := .none, size := size, maxSize := size, needsRes := needs }
@@ -315,23 +327,33 @@ def translateExtIndirect (o : Operand) (row : InstrRow) : R Pkg := do
 /-- `additional` of a single-value FCB / FDB / RMB -/
 def translatePseudo (o : Operand) (row : InstrRow) : R Pkg := do
   let mn := row.mnemonic
-  let int ← match o.value.int? with | some i => pure i | none => throw .other
-  let bl ← match o.value.byteLen? with | some b => pure b | none => throw .other
+  let noneGuard : R Unit := match o.value with | .pyNone => .error .other | _ => .ok ()   -- an attribute of None
+  let byteLen : R Nat := match o.value.byteLen? with | some b => .ok b | none => .error .other
   if mn == "FCB" then
-    if o.value.isMultiByte then return { additional := o.value, size := bl, maxSize := bl }
-    else
-      let a ← numericOfInt int (some 2) .none
-      return { additional := a, size := 1, maxSize := 1 }
+    noneGuard
+    if o.value.isMultiByte then
+      let bl ← byteLen
+      return { additional := o.value, size := bl, maxSize := bl }
+    else return { additional := o.value, size := 1, maxSize := 1 }      -- fitted to one byte after fix_addresses
   if mn == "FDB" then
-    if o.value.isMultiWord then return { additional := o.value, size := bl, maxSize := bl }
-    else
-      let a ← numericOfInt int (some 4) .none
-      return { additional := a, size := 2, maxSize := 2 }
+    noneGuard
+    if o.value.isMultiWord then
+      let bl ← byteLen
+      return { additional := o.value, size := bl, maxSize := bl }
+    else return { additional := o.value, size := 2, maxSize := 2 }      -- fitted to two bytes after fix_addresses
   if mn == "RMB" then
+    noneGuard
+    if !o.value.isNumeric || o.value.isNegative then throw .operandType   -- "not a number of bytes to reserve"
+    let int ← match o.value.int? with | some i => pure i | none => throw .other
     let a ← numericOfInt 0 (some (int * 2)) .none
     return { additional := a, size := int, maxSize := int }
-  if mn == "ORG" then return { address := o.value }
-  if mn == "FCC" then return { additional := o.value, size := bl, maxSize := bl }
+  if mn == "ORG" then
+    noneGuard
+    if !o.value.isNumeric || o.value.isNegative then throw .operandType   -- "not an address"
+    return { address := o.value }
+  if mn == "FCC" then
+    let bl ← byteLen
+    return { additional := o.value, size := bl, maxSize := bl }
   return {}
 
 /-- `Operand.translate()` of every class; `error` = any exception (wrapped into TranslationError) -/
@@ -343,7 +365,9 @@ def translateOperand (o : Operand) (row : InstrRow) : R Pkg :=
     let op ← opVal row.rel
     match o.value with
     | .pyNone => throw .other
-    | v => return { opCode := op, additional := if v.isAddress then v else .none, size := row.relSz, maxSize := row.relSz }
+    | v =>
+      if !v.isAddress then throw .operandType                         -- "a branch target must be a label"
+      return { opCode := op, additional := v, size := row.relSz, maxSize := row.relSz }
   | .inherent => do
     if row.inh.isNone || row.inh == some 0 then throw .operandType
     let op ← opVal row.inh
